@@ -6,5 +6,10 @@ unset RUSTFLAGS CARGO_ENCODED_RUSTFLAGS
 set -e
 cd "$ROOT/harness"
 cargo build --release --offline --target-dir "$ROOT/.target" 2>&1 | tail -3
+# artefacts of C12 (CLI) and C14 (Python extension) are prebuilt here so that the checks only
+# pay for an incremental rebuild; ./check rebuilds them from the working tree anyway
+(cd /repo && cargo build --release --offline --bin grex --target-dir "$ROOT/.target/cli" 2>&1 | tail -1) || true
+PY=/root/.pyenv/versions/3.11.7/bin/python3.11; [ -x "$PY" ] || PY="$(command -v python3.11 || command -v python3)"
+(cd /repo && PYO3_PYTHON="$PY" cargo build --release --offline --lib --no-default-features --features "python pyo3/extension-module" --target-dir "$ROOT/.target/py" 2>&1 | tail -1) || true
 mkdir -p "$ROOT/evidence" "$ROOT/replays/found"
 echo "setup done"
